@@ -2,73 +2,50 @@
 From GE Require Import Lib.Bytes Model.Scalar Proofs.Scalar.
 Open Scope Z_scope.
 
-(* offset = value * assetBlinder + valueBlinder (mod n) whenever CalculateScalarOffset answers *)
-Theorem C17_calc_offset_spec : forall v ab vb r, (v < 2 ^ 64)%N -> okscalar ab -> okscalar vb ->
-  calc_offset v ab vb = SOOk r ->
-  okscalar r /\ sval r = modn (Z.of_N v * sval ab + sval vb).
-Proof. exact calc_offset_spec. Qed.
-Print Assumptions C17_calc_offset_spec.
-
-Theorem C17_calc_offset_error_iff : forall v ab vb, (v < 2 ^ 64)%N -> okscalar ab -> okscalar vb ->
-  (calc_offset v ab vb = SOErr <-> (0 < v)%N /\ ab <> None /\ vb = None).
-Proof. exact calc_offset_error_iff. Qed.
-Print Assumptions C17_calc_offset_error_iff.
-
-Theorem C17_calc_offset_total_partial : forall v ab vb, (v < 2 ^ 64)%N -> okscalar ab -> okscalar vb ->
-  ~ ((0 < v)%N /\ ab <> None /\ vb = None) ->
+(* offset = value * assetBlinder + valueBlinder (mod n): every 64-bit value, every scalar that is
+   absent or 32 bytes below n; the call always answers *)
+Theorem C17_calc_offset_total : forall v ab vb, (v < 2 ^ 64)%N -> okscalar ab -> okscalar vb ->
   exists r, calc_offset v ab vb = SOOk r /\ okscalar r /\ sval r = modn (Z.of_N v * sval ab + sval vb).
-Proof. exact calc_offset_total_partial. Qed.
-Print Assumptions C17_calc_offset_total_partial.
-
-Theorem C17_calc_offset_total_refuted :
-  exists v ab vb, (v < 2 ^ 64)%N /\ okscalar ab /\ okscalar vb /\ calc_offset v ab vb = SOErr.
-Proof. exact calc_offset_total_refuted. Qed.
-Print Assumptions C17_calc_offset_total_refuted.
+Proof. exact calc_offset_total. Qed.
+Print Assumptions C17_calc_offset_total.
 
 (* accumulation = scalar + value * assetBlinder + valueBlinder (mod n) *)
-Theorem C17_add_offset_spec : forall s v ab vb r, (v < 2 ^ 64)%N -> okscalar s -> okscalar ab -> okscalar vb ->
-  add_offset s v ab vb = SOOk r ->
-  okscalar r /\ sval r = modn (sval s + Z.of_N v * sval ab + sval vb).
-Proof. exact add_offset_spec. Qed.
-Print Assumptions C17_add_offset_spec.
+Theorem C17_add_offset_total : forall s v ab vb, (v < 2 ^ 64)%N -> okscalar s -> okscalar ab -> okscalar vb ->
+  exists r, add_offset s v ab vb = SOOk r /\ okscalar r /\
+            sval r = modn (sval s + Z.of_N v * sval ab + sval vb).
+Proof. exact add_offset_total. Qed.
+Print Assumptions C17_add_offset_total.
 
-Theorem C17_add_offset_error_iff : forall s v ab vb, (v < 2 ^ 64)%N -> okscalar s -> okscalar ab -> okscalar vb ->
-  (add_offset s v ab vb = SOErr <-> ab <> None /\ vb = None /\ ((0 < v)%N \/ s <> None)).
-Proof. exact add_offset_error_iff. Qed.
-Print Assumptions C17_add_offset_error_iff.
-
-Theorem C17_add_offset_total_partial : forall s v ab vb, (v < 2 ^ 64)%N -> okscalar s -> okscalar ab -> okscalar vb ->
-  ~ (ab <> None /\ vb = None /\ ((0 < v)%N \/ s <> None)) ->
-  exists r, add_offset s v ab vb = SOOk r /\ okscalar r /\ sval r = modn (sval s + Z.of_N v * sval ab + sval vb).
-Proof. exact add_offset_total_partial. Qed.
-Print Assumptions C17_add_offset_total_partial.
-
-Theorem C17_add_offset_total_refuted :
-  exists s v ab vb, (v < 2 ^ 64)%N /\ okscalar s /\ okscalar ab /\ okscalar vb /\ add_offset s v ab vb = SOErr.
-Proof. exact add_offset_total_refuted. Qed.
-Print Assumptions C17_add_offset_total_refuted.
-
-(* subtraction = a - b (mod n) *)
-Theorem C17_sub_scalars_spec : forall a b r, okscalar a -> okscalar b ->
-  sub_scalars a b = SOOk r -> okscalar r /\ sval r = modn (sval a - sval b).
-Proof. exact sub_scalars_spec. Qed.
-Print Assumptions C17_sub_scalars_spec.
-
-Theorem C17_sub_scalars_error_iff : forall a b, okscalar a -> okscalar b ->
-  (sub_scalars a b = SOErr <-> a <> None /\ b <> None /\ sval a = sval b).
-Proof. exact sub_scalars_error_iff. Qed.
-Print Assumptions C17_sub_scalars_error_iff.
-
-Theorem C17_sub_scalars_total_partial : forall a b, okscalar a -> okscalar b ->
-  ~ (a <> None /\ b <> None /\ sval a = sval b) ->
+(* subtraction = a - b (mod n), equal operands included *)
+Theorem C17_sub_scalars_total : forall a b, okscalar a -> okscalar b ->
   exists r, sub_scalars a b = SOOk r /\ okscalar r /\ sval r = modn (sval a - sval b).
-Proof. exact sub_scalars_total_partial. Qed.
-Print Assumptions C17_sub_scalars_total_partial.
+Proof. exact sub_scalars_total. Qed.
+Print Assumptions C17_sub_scalars_total.
 
-Theorem C17_sub_scalars_total_refuted :
-  exists a b, okscalar a /\ okscalar b /\ sub_scalars a b = SOErr.
-Proof. exact sub_scalars_total_refuted. Qed.
-Print Assumptions C17_sub_scalars_total_refuted.
+Theorem C17_never_refuse_in_domain : forall s v ab vb, (v < 2 ^ 64)%N -> okscalar s -> okscalar ab -> okscalar vb ->
+  calc_offset v ab vb <> SOErr /\ sub_scalars ab vb <> SOErr /\ add_offset s v ab vb <> SOErr.
+Proof. exact scalar_helpers_never_refuse_in_domain. Qed.
+Print Assumptions C17_never_refuse_in_domain.
+
+(* what is still refused lies outside the property's domain: exact regions over all byte strings *)
+Theorem C17_sub_scalars_error_iff_general : forall a b,
+  sub_scalars a b = SOErr <->
+  exists y, b = Some y /\
+    match a with
+    | None => length y <> 32%nat
+    | Some x => x <> y /\ (length y <> 32%nat \/ length x <> 32%nat \/ modn (sc x - sc y) = 0)
+    end.
+Proof. exact sub_scalars_error_iff_general. Qed.
+Print Assumptions C17_sub_scalars_error_iff_general.
+
+Theorem C17_calc_offset_error_iff_general : forall v ab vb, (v < 2 ^ 64)%N ->
+  (calc_offset v ab vb = SOErr <->
+   exists x, ab = Some x /\ (0 < v)%N /\
+     (length x <> 32%nat \/
+      exists y, vb = Some y /\
+        (length y <> 32%nat \/ (secp_n <= sc y /\ modn (sc x * Z.of_N v + sc y) <> 0)))).
+Proof. exact calc_offset_error_iff_general. Qed.
+Print Assumptions C17_calc_offset_error_iff_general.
 
 (* no helper ever writes to an argument (or to any memory it did not allocate): all inputs *)
 Theorem C17_arguments_never_written :
